@@ -10,7 +10,9 @@ Dom(kind, small) == CASE kind = "u8" -> IF small THEN Small ELSE U8 [] kind = "u
                       [] kind = "i32" -> IF small THEN {0, -1} ELSE I32s [] kind = "str" -> Strs
 Types == [T1 |-> <<"u8">>, T2 |-> <<"i32", "u16">>, T3 |-> <<"str">>, T4 |-> <<"u8", "str">>, T5 |-> <<"u16", "u8">>, T6 |-> <<"u8", "i32">>,
           T7 |-> <<"i32", "i32", "i32", "i32", "u8">>, T8 |-> <<"i32", "i32", "i32", "i32">>,
-          T9 |-> <<"u16", "u16", "u16", "u16", "u16", "u16", "u16", "u16", "u8">>, T10 |-> <<"u8", "u16", "u8", "i32", "u8">>]
+          T9 |-> <<"u16", "u16", "u16", "u16", "u16", "u16", "u16", "u16", "u8">>, T10 |-> <<"u8", "u16", "u8", "i32", "u8">>,
+          \* T11: the only key member lies inside a nested struct that is not itself a key member; T12: a non-key sequence precedes the key
+          T11 |-> <<"u16">>, T12 |-> <<"i32">>]
 RECURSIVE Values(_, _)
 Values(type, small) == IF type = <<>> THEN {<<>>} ELSE {<<h>> \o t : h \in Dom(Head(type), small), t \in Values(Tail(type), small)}
 
